@@ -127,11 +127,19 @@ def check(case):
         tol = 1e-9 * kscale
         kn = KernelNormalizer(with_center=wc, with_trace=wt)
         try:
-            if case.get("used"):
-                Po = Phi[::-1] * 0.5 + 0.25
-                kn.fit(Po @ Po.T, sample_weight=None if sw is not None else np.arange(1.0, n + 1.0))
             Kin = K.astype(np.int64) if case.get("int_dtype") else K
-            kn.fit(Kin.copy(), sample_weight=sw)
+            Kbuf = Kin.copy()
+            if case.get("used"):
+                # a USED normaliser whose caller reuses its kernel buffer: fitted on another kernel held in the same
+                # array object, which is then refilled in place
+                Po = Phi[::-1] * 0.5 + 0.25
+                Kbuf = np.ascontiguousarray(Po @ Po.T, dtype=float)
+                kn.fit(Kbuf, sample_weight=None if sw is not None else np.arange(1.0, n + 1.0))
+                if case.get("int_dtype"):
+                    Kbuf = Kin.copy()
+                else:
+                    Kbuf[...] = Kin
+            kn.fit(Kbuf, sample_weight=sw)
             Kt = np.asarray(kn.transform(Kin.copy()), float)
         except Exception as e:
             return r.fail("crash:%s" % type(e).__name__, repr(e))
@@ -175,11 +183,19 @@ def check(case):
         return r.skip("centred Nystrom kernel has (numerically) zero trace")
     sc = SparseKernelCenterer(with_center=wc, with_trace=wt)
     try:
-        if case.get("used"):
-            Po = Phi[::-1] * 0.5 + 0.25
-            sc.fit(Po @ Po[act].T, Po[act] @ Po[act].T, sample_weight=None if sw is not None else np.arange(1.0, n + 1.0))
         Knm_in, Kmm_in = (Knm.astype(np.int64), Kmm.astype(np.int64)) if case.get("int_dtype") else (Knm, Kmm)
-        sc.fit(Knm_in.copy(), Kmm_in.copy(), sample_weight=sw)
+        bnm, bmm = Knm_in.copy(), Kmm_in.copy()
+        if case.get("used"):
+            # a USED centerer whose caller reuses its kernel buffers (refilled in place for the fit that is judged)
+            Po = Phi[::-1] * 0.5 + 0.25
+            bnm, bmm = np.ascontiguousarray(Po @ Po[act].T, dtype=float), np.ascontiguousarray(Po[act] @ Po[act].T, dtype=float)
+            sc.fit(bnm, bmm, sample_weight=None if sw is not None else np.arange(1.0, n + 1.0))
+            if case.get("int_dtype"):
+                bnm, bmm = Knm_in.copy(), Kmm_in.copy()
+            else:
+                bnm[...] = Knm_in
+                bmm[...] = Kmm_in
+        sc.fit(bnm, bmm, sample_weight=sw)
         Kt = np.asarray(sc.transform(Knm_in.copy()), float)
     except Exception as e:
         return r.fail("crash:%s" % type(e).__name__, repr(e))
